@@ -427,13 +427,13 @@ type sliceResult[T any] struct {
 	err  error
 }
 
-func (s *sliceResult[T]) Next() bool               { s.i++; return s.i <= len(s.rows) }
-func (s *sliceResult[T]) Keys() []string           { return nil }
-func (s *sliceResult[T]) Values() []any            { return []any{s.rows[s.i-1]} }
+func (s *sliceResult[T]) Next() bool                { s.i++; return s.i <= len(s.rows) }
+func (s *sliceResult[T]) Keys() []string            { return nil }
+func (s *sliceResult[T]) Values() []any             { return []any{s.rows[s.i-1]} }
 func (s *sliceResult[T]) Mapper() graph.ValueMapper { return graph.ValueMapper{} }
-func (s *sliceResult[T]) Scan(...any) error        { panic("simdb: Scan unsupported") }
-func (s *sliceResult[T]) Error() error             { return s.err }
-func (s *sliceResult[T]) Close()                   {}
+func (s *sliceResult[T]) Scan(...any) error         { panic("simdb: Scan unsupported") }
+func (s *sliceResult[T]) Error() error              { return s.err }
+func (s *sliceResult[T]) Close()                    {}
 
 func cursorOf[T any](d *DB, ctx context.Context, site string, rows []T, fn func(graph.Cursor[T]) error) error {
 	var endErr error
